@@ -709,7 +709,7 @@ def check_timeouts(c: C13Collector):
             c.sample(f"timeout:W2:{name}", 2, [mk_inst("/ckpt/a", c.bid(), io, mf)], "seq", ctx.n(30, 100), timeouts=True)
     for W in (3, 4):
         for name, io, mf in single_fault_plans(W):
-            c.explore(f"timeout:W{W}:{name}", W, [mk_inst("/ckpt/a", c.bid(), io, mf)], "seq", ctx.n(25, 800 if W == 3 else 200), timeouts=True)
+            c.explore(f"timeout:W{W}:{name}", W, [mk_inst("/ckpt/a", c.bid(), io, mf)], "seq", ctx.n(25, 500 if W == 3 else 150), timeouts=True)
             c.sample(f"timeout:W{W}:{name}", W, [mk_inst("/ckpt/a", c.bid(), io, mf)], "seq", ctx.n(12, 90), timeouts=True,
                      p_timeout=rng.choice([0.05, 0.12, 0.3]))
     # absent ranks with timeouts: every non-empty proper subset for W = 2, 3; sampled for W = 4; with and without a fault
@@ -726,7 +726,7 @@ def check_timeouts(c: C13Collector):
                 c.explore(tag, W, insts, "seq", ctx.n(20, 600 if W < 4 else 150), timeouts=True)
                 c.sample(tag, W, insts, "seq", ctx.n(4, 20), timeouts=True, p_timeout=0.1)
     # histories: overlapping snapshots, some with absent ranks, with timeouts (par: all threads at once)
-    for _ in range(ctx.n(10, 40)):
+    for _ in range(ctx.n(10, 30)):
         W = rng.choice([2, 2, 3])
         n = rng.choice([2, 2, 3])
         insts = []
